@@ -378,7 +378,7 @@ type c13Run struct {
 	log     []string
 	calls   int
 	fault   int
-	userCtx *int
+	userCtx *c13UserCtx
 	ids     map[interface{}]int // pointer identity -> id
 	nodes   []parsley.Node      // by id
 	nextID  int
@@ -388,7 +388,7 @@ type c13Run struct {
 func (r *c13Run) callback(kind string, id int, userCtx interface{}, extra string) bool {
 	r.calls++
 	ok := "ctx-ok"
-	if p, is := userCtx.(*int); !is || p != r.userCtx {
+	if p, is := userCtx.(*c13UserCtx); !is || p != r.userCtx {
 		ok = "CTX-WRONG"
 	}
 	r.log = append(r.log, fmt.Sprintf("%s#%d %s%s", kind, id, ok, extra))
@@ -415,6 +415,18 @@ func (r *c13Run) idOf(n parsley.Node) int {
 		return int(n.Pos())
 	}
 	return -1 // a node the harness did not create: the library passed a copy
+}
+
+// c13UserCtx is the caller's evaluation context. It also happens to implement
+// parsley.NodeTransformerRegistry (a context that knows named transformers, as the
+// library's interface suggests a caller may have): the passes documented in C13 never
+// consult it - a node is transformed by its OWN interpreter's transformer or not at all.
+type c13UserCtx struct{ v int }
+
+func (*c13UserCtx) NodeTransformer(name string) (parsley.NodeTransformer, bool) {
+	return parsley.NodeTransformFunc(func(userCtx interface{}, node parsley.Node) (parsley.Node, parsley.Error) {
+		return ast.NewTerminalNode(nil, "HIJACKED", "by the registry of the user context: "+name, node.Pos(), node.ReaderPos()), nil
+	}), true
 }
 
 type hInterp struct {
@@ -972,7 +984,7 @@ func kidsOfReal(n parsley.Node) []parsley.Node {
 // c13ExecuteSeq applies the steps one after the other to ONE real tree and to the model
 // and compares after every step: result, callback log, Schema() of every node.
 func c13ExecuteSeq(tree *TNode, steps []c13Step) (calls []int, mismatch string) {
-	ctxv := 0
+	ctxv := c13UserCtx{}
 	r := &c13Run{userCtx: &ctxv, ids: map[interface{}]int{}}
 	c13Cur = r
 	sf := text.NewFile("seq", []byte("x"))
